@@ -8,7 +8,11 @@ Mirrors `psyclone.psyir.tools.dependency_tools.DependencyTools`:
   `reference_accesses` methods add them (RHS reads, LHS index reads, LHS write; loop: variable WRITE, READ,
   bounds; IF: condition, then, else);
 * `norm`       the closed form the SymPy route decides: `(Σ cₐ·a + k)/den` over syntactic atoms.  Integer `/`
-  by a non-zero literal is translated to *exact rational* scaling — as `SymPyWriter` + SymPy do;
+  by a non-zero literal is translated to *exact rational* scaling — as `SymPyWriter` + SymPy do (after
+  fixes/C08-integer-division.patch a subscript with a `/` never reaches SymPy: `hasDiv`);
+* FIXED-mode model: fixes/C08-dvar-loop (name loop), C08-integer-division (`hasDiv` guards), C08-symbolic-coefficient
+  (a product with the loop variable gives no distance), C08-stale-subscript (`staleSubscript`),
+  C08-inner-variable-subscript (`onlyVar` in the multi-subscript test);
 * `independent0` (`_independent_0_var`/`never_equal`), `depDistance` (`_get_dependency_distance`, including the
   `d_<var>` fresh-name loop — FIXED version `freshD`, pinned version `freshPinned`), `partition` (`_partition`),
   `indepPair` (`_is_loop_carried_dependency` + `_independent_multi_subscript`), `arrayPar`, `scalarPar`,
@@ -106,23 +110,37 @@ def sameTerms (f g : Lin) : Bool :=
 def nonAffine (i : Nat) (f : Lin) : Bool :=
   f.terms.any fun p => p.1 != .var i && decide (i ∈ evars p.1)
 
+/-- `_has_division`: a `/` anywhere in the subscript (also inside the subscript of an index array) -/
+def hasDiv : Expr → Bool
+  | .lit _ => false
+  | .var _ => false
+  | .idx1 _ i => hasDiv i
+  | .idx2 _ i j => hasDiv i || hasDiv j
+  | .un _ e => hasDiv e
+  | .bin op a b => op == .div || hasDiv a || hasDiv b
+
 /-- the atoms on which the real analysis was calibrated: an atom that mentions a loop variable is the
-variable itself, an array element (SymPy: unknown function) or a MOD call -/
+variable itself, an array element (SymPy: unknown function), a MOD call, a product or a power (for these SymPy
+finds no integer distance: several solutions, or — after the fix — a symbolic coefficient) -/
 def fragAtom (lvars : List Nat) : Expr → Bool
   | .var _ => true
   | .idx1 _ _ => true
   | .idx2 _ _ _ => true
   | .bin .mod _ _ => true
+  | .bin .mul _ _ => true
+  | .bin .pow _ _ => true
   | e => lvars.all fun v => !decide (v ∈ evars e)
 
-def fragExpr (lvars : List Nat) (e : Expr) : Bool := (norm e).terms.all fun p => fragAtom lvars p.1
+/-- a subscript with a division is refused outright; otherwise all atoms must be calibrated ones -/
+def fragExpr (lvars : List Nat) (e : Expr) : Bool :=
+  hasDiv e || (norm e).terms.all fun p => fragAtom lvars p.1
 
 /-! ## `_independent_0_var` / `SymbolicMaths.never_equal` -/
 
 /-- the difference simplifies to a non-zero *integer* -/
 def independent0 (w o : Expr) : Bool :=
   let f := norm w; let g := norm o
-  sameTerms f g &&
+  !hasDiv w && !hasDiv o && sameTerms f g &&
     (let num := f.k * g.den - g.k * f.den
      num != 0 && num % (f.den * g.den) == 0)
 
@@ -153,7 +171,8 @@ def takenOf (dnames : List (Nat × Nat)) (w o : Expr) : List Nat :=
 
 /-- solve `w(i) = o(i + d)` for `d`; `some d` iff the unique solution is an integer not mentioning `i` -/
 def depDistance (i : Nat) (dnames : List (Nat × Nat)) (w o : Expr) : Option Int :=
-  if i ∈ evars w ++ evars o then
+  if hasDiv w || hasDiv o then none
+  else if i ∈ evars w ++ evars o then
     match freshD (takenOf dnames w o) with
     | none => none
     | some _ =>
@@ -196,24 +215,50 @@ def mergeVar (v : Nat) : List Part → List Part
 def partition (lvars : List Nat) (w o : List Expr) : List Part :=
   lvars.foldl (fun ps v => mergeVar v ps) (initParts lvars w o 0)
 
+/-- The Python `while k < len(partition_infos)` loop of `_partition` for ONE loop variable, literally: state =
+(list, `k`, `first_use`); a partition using `v` is either remembered as `first_use` or merged into
+`partition_infos[first_use]` and deleted (`k` stays).  `none` = fuel exhausted.  `Props/C08.partWhile_eq` shows
+that fuel `len + 1` always suffices and that the result is `mergeVar v`. -/
+def partWhile (v : Nat) : Nat → List Part → Nat → Option Nat → Option (List Part)
+  | 0, _, _, _ => none
+  | fuel + 1, ps, k, fu =>
+    if h : k < ps.length then
+      if v ∈ (ps[k]).1 then
+        match fu with
+        | none => partWhile v fuel ps (k + 1) (some k)
+        | some f =>
+          let first := ps.getD f ([], [])
+          partWhile v fuel ((ps.set f (union first.1 (ps[k]).1, first.2 ++ (ps[k]).2)).eraseIdx k) k (some f)
+      else partWhile v fuel ps (k + 1) fu
+    else some ps
+
+/-- `_partition` with the literal while loop and fuel `len + 1` per loop variable -/
+def partitionW (lvars : List Nat) (w o : List Expr) : Option (List Part) :=
+  lvars.foldlM (fun ps v => partWhile v (ps.length + 1) ps 0 none) (initParts lvars w o 0)
+
 /-! ## `_is_loop_carried_dependency` (returns `true` when the pair is shown INDEPENDENT, as the Python does) -/
 
 def sub (es : List Expr) (p : Nat) : Expr := es.getD p (.lit 0)
 
-def decideParts (i : Nat) (dnames : List (Nat × Nat)) (w o : List Expr) : List Part → Bool
+/-- no loop variable other than `i` occurs in the two subscripts (`_independent_multi_subscript` skips the others) -/
+def onlyVar (lvars : List Nat) (i : Nat) (w o : Expr) : Bool :=
+  lvars.all fun u => u == i || (!decide (u ∈ evars w) && !decide (u ∈ evars o))
+
+def decideParts (lvars : List Nat) (i : Nat) (dnames : List (Nat × Nat)) (w o : List Expr) : List Part → Bool
   | [] => false
   | (vs, [p]) :: rest =>
     if vs.length = 0 then
-      (if independent0 (sub w p) (sub o p) then true else decideParts i dnames w o rest)
+      (if independent0 (sub w p) (sub o p) then true else decideParts lvars i dnames w o rest)
     else if vs.length = 1 then
-      (if depDistance i dnames (sub w p) (sub o p) == some 0 then true else decideParts i dnames w o rest)
+      (if depDistance i dnames (sub w p) (sub o p) == some 0 then true else decideParts lvars i dnames w o rest)
     else false
   | (_, ps) :: rest =>
-    if ps.any (fun p => depDistance i dnames (sub w p) (sub o p) == some 0) then true
-    else decideParts i dnames w o rest
+    if ps.any (fun p => onlyVar lvars i (sub w p) (sub o p) &&
+        depDistance i dnames (sub w p) (sub o p) == some 0) then true
+    else decideParts lvars i dnames w o rest
 
 def indepPair (lvars : List Nat) (dnames : List (Nat × Nat)) (w o : List Expr) : Bool :=
-  decideParts (lvars.headD 0) dnames w o (partition lvars w o)
+  decideParts lvars (lvars.headD 0) dnames w o (partition lvars w o)
 
 /-! ## access summary (`VariablesAccessInfo`) -/
 
@@ -289,9 +334,18 @@ def accsOf (x : Nat) (accs : List Access) : List Access := accs.filter fun a => 
 
 def isArray (accs : List Access) : Bool := accs.any fun a => !a.subs.isEmpty
 
+/-- the loop writes variable `y` (`VariablesAccessInfo.is_written`) -/
+def isWritten (all : List Access) (y : Nat) : Bool := all.any fun a => a.var == y && a.write
+
+/-- some subscript of these accesses uses a variable, not a loop variable, that the loop writes -/
+def staleSubscript (lvars : List Nat) (all accs : List Access) : Bool :=
+  accs.any fun a => a.subs.any fun s => (evars s).any fun y => !decide (y ∈ lvars) && isWritten all y
+
 def varVerdict (lvars : List Nat) (dnames : List (Nat × Nat)) (all : List Access) (x : Nat) : Option Code :=
   if x ∈ lvars then none
-  else if isArray (accsOf x all) then arrayPar lvars dnames (accsOf x all)
+  else if isArray (accsOf x all) then
+    (if staleSubscript lvars all (accsOf x all) then some ERROR_DEPENDENCY
+     else arrayPar lvars dnames (accsOf x all))
   else scalarPar (accsOf x all)
 
 /-- the messages of `can_loop_be_parallelised(loop, test_all_variables=True)`: (code, variable) -/
@@ -302,6 +356,11 @@ def messages (dnames : List (Nat × Nat)) (v : Nat) (lo hi st : Expr) (body : St
     match varVerdict lvars dnames all x with
     | some c => some (c, x)
     | none => none
+
+/-- `can_loop_be_parallelised(loop)` with the default `test_all_variables=False`: the variables are visited in
+the order of the sorted signatures (`order`) and the analysis stops at the first one that is refused -/
+def firstMessage (order : List Nat) (msgs : List (Code × Nat)) : Option (Code × Nat) :=
+  order.findSome? fun x => msgs.find? fun m => m.2 == x
 
 def canParallelise (dnames : List (Nat × Nat)) (v : Nat) (lo hi st : Expr) (body : Stmt) : Bool :=
   let all := loopAccesses v lo hi st body
